@@ -195,6 +195,8 @@ pub fn line_atoms(d: &Delims, n: &Names, reduced: bool) -> Vec<String> {
         format!("q {}i{} w\n", o(Kind::Expired, false), c(&n.tl)),
         format!("{} k\n", o(Kind::Expired, false)),
         format!("z {}\n", c(&n.tl)),
+        // the strategy flag written before the condition attribute
+        format!("{}{} unwrap-block to=\"{TO_EXPIRED}\"{}\n", d.ds, n.tl, d.de),
         // code followed by an opening tag that ends the line
         format!("w {}\n", o(Kind::Expired, false)),
         // a closing tag with a line break inside it (line breaks are legal separators in a tag)
